@@ -12,6 +12,10 @@ Ghost `since` = number of cycles between the most recent strobe strictly before 
 
 The statement's "(starting one cycle later when delay is allowed)" is taken literally for every length, including
 to_cycles=1.
+
+Finding on the unchanged tree: to_cycles=1 with allow_delay=True passes the strobe straight through (no one-cycle delay,
+combinational output) -> clause output_iff_strobe_in_window fails with a 1-cycle witness replayed on the simulator.
+Proposed fix: proposed_fixes/C55_stretch_len1_delay.diff (take the pass-through shortcut only when no delay is allowed).
 """
 import z3
 from amaranth import Elaboratable, Module, Signal
